@@ -45,7 +45,7 @@ func init() {
 		ID:     "C06",
 		Word32: true,
 		Level:  "model_checking",
-		Rule: "Scheduled part (E4 on the instrumented pbcmpl and iohelper packages): every unordered pair of {Marshal, Unmarshal} × 7 frames as a 2-thread program - each thread with its own message, writer and reader -, every schedule with at most 2 (thorough 3) preemptions; each thread must meet the per-frame obligations exactly as when it runs alone. Sequential part: a MESSAGE ZOO (25 messages of 15 generated types given by their hand-written wire bytes: every wire type, negative varints, nested messages, a map entry, and UNKNOWN FIELDS at top level and inside a nested message; each through Marshal / Size and back through Unmarshal into a fresh and into a dirty reused target, proto.Equal + identical re-encoding + identical Size, with a small frame behind it, under whole / 1-byte / 7-byte chunkings); MESSAGES WITH THEIR OWN CODEC of several shapes (a struct of fixed-size fields encoding as varints, a type whose Size() counts items and whose Unmarshal MERGES, a type with a ProtoSize() method, empty encodings: Marshal count = Size = 32 + own encoding, read back into fresh and dirty reused targets); HISTORIES ON ONE MESSAGE OBJECT (7 messages with a nested message - repeated element, map value, oneof member, two levels down -: sized by pbcmpl.Marshal / pbcmpl.Size / proto.Size / nothing, then changed INSIDE so that the nested message's encoded length changes, then marshalled without a sizing call in between: the frame is the hand-written encoding of the message as it is then); POLLING readers (every 2nd / 3rd / 5th call returns (0, nil) between pieces of 1 / 7 / 16 / 4096 bytes: hundreds of empty reads per frame, never two in a row; frames on both sides of the 1 MiB switch); a payload-length sweep (EVERY length 0..1100, every threshold length up to 70000 and every length 2^20-16..2^20+2 - bodies on both sides of the 1 MiB switch to an incremental read - × 4 message kinds: per-frame obligations, and read-back with a small frame behind it); E3 stateless deviation-bounded DFS over a scripted io.Reader: (frames) every frame of the alphabet {generated protobuf message, its versioned wrapper, legacy Marshal/Unmarshal message, its versioned variant} × payload lengths {0,1,2,31,32,33,127,128,129,5000, 2^20+1 (+65535, 65536, 2^20, 2^21+5 thorough)} × versions (every length 0..16, an interior NUL, a leading NUL, trailing spaces): Marshal's count = bytes written = Size = HeaderSize + encoding length, wire bytes = independently built header + encoding, ReadHeader = (version, 32, length) consuming 32 bytes; " +
+		Rule: "Scheduled part (E4 on the instrumented pbcmpl and iohelper packages): every unordered pair of {Marshal, Unmarshal} × 7 frames as a 2-thread program - each thread with its own message, writer and reader -, every schedule with at most 2 (thorough 3) preemptions; each thread must meet the per-frame obligations exactly as when it runs alone. Sequential part: a MESSAGE ZOO (25 messages of 15 generated types given by their hand-written wire bytes: every wire type, negative varints, nested messages, a map entry, and UNKNOWN FIELDS at top level and inside a nested message; each through Marshal / Size and back through Unmarshal into a fresh and into a dirty reused target, proto.Equal + identical re-encoding + identical Size, with a small frame behind it, under whole / 1-byte / 7-byte chunkings); MESSAGES WITH THEIR OWN CODEC of several shapes (a struct of fixed-size fields encoding as varints, a type whose Size() counts items and whose Unmarshal MERGES, a type with a ProtoSize() method, empty encodings: Marshal count = Size = 32 + own encoding, read back into fresh and dirty reused targets); HISTORIES ON ONE MESSAGE OBJECT (7 messages with a nested message - repeated element, map value, oneof member, two levels down -: sized by pbcmpl.Marshal / pbcmpl.Size / proto.Size / nothing, then changed INSIDE so that the nested message's encoded length changes, then marshalled without a sizing call in between: the frame is the hand-written encoding of the message as it is then); POLLING readers (every 2nd / 3rd / 5th call returns (0, nil) between pieces of 1 / 7 / 16 / 4096 bytes: hundreds of empty reads per frame, never two in a row; frames on both sides of the 1 MiB switch); a payload-length sweep (EVERY length 0..1100, every threshold length up to 70000 and every length 2^20-16..2^20+2 - bodies on both sides of the 1 MiB switch to an incremental read - × 4 message kinds: per-frame obligations, and read-back with a small frame behind it); E3 stateless deviation-bounded DFS over a scripted io.Reader: (frames) every frame of the alphabet {generated protobuf message, its versioned wrapper, legacy Marshal/Unmarshal message, its versioned variant} × payload lengths {0,1,2,31,32,33,127,128,129,5000, 2^20+1 (+65535, 65536, 2^20, 2^21+5 thorough)} × versions (every length 0..16, an interior NUL, a leading NUL, trailing spaces, bytes >= 0x80 that are not valid UTF-8): Marshal's count = bytes written = Size = HeaderSize + encoding length, wire bytes = independently built header + encoding, ReadHeader = (version, 32, length) consuming 32 bytes; " +
 			"(histories) every stream of 1..3 frames over a 6-frame sub-alphabet, read back by k+1 Unmarshal calls under every reader chunking with ≤B deviations from 'deliver as much as asked' (deviations: return only j bytes for any j, deliver the last bytes together with io.EOF, one (0,nil) read) plus every uniform chunk size 1..len; every stream also through 11 standard-library reader types and every frame marshalled into 4 standard-library writer types (code may special-case dynamic types); every stream also MARSHALLED frame after frame into one writer (the last message object twice) and read back into reused target messages; three streams in which a frame with a body above 1 MiB is followed by further frames, under whole/uniform chunkings and one forced short read around every frame boundary, body start and power of two; each call must return the next message, its version, n = frame length = bytes actually pulled from the reader, and the extra call (0, cause io.EOF). " +
 			"states = choice-tree nodes (= executions), transitions = reader answers given. Non-trivial: executions with at least one deviation or a multi-frame stream.",
 		Assumptions: []string{
@@ -463,6 +463,9 @@ func c06Versions() []string {
 		out = append(out, base[:l])
 	}
 	out = append(out, "1.\x000", " ", "1.0 ", "\x00x")
+	// bytes that are not ASCII: Latin-1 text, a binary id, 16 bytes cut in the middle of a UTF-8 sequence, the
+	// extremes - a version is at most 16 BYTES not ending in NUL, nothing says they form valid UTF-8
+	out = append(out, "caf\xe9-1.0", "\xde\xad\xbe\xef", "v1.0.0-pr\xc3\xa9vu\xc3", "\x80", strings.Repeat("\xff", 16), "h\xc3\xa9llo", "\x01\x7f\x80\xfe")
 	// the library's own constant and its neighbours: DefaultVer itself, every proper prefix of it, and
 	// versions that EXTEND it by 1..11 bytes (a comparison with the default that looks at a prefix only)
 	dv := pbcmpl.DefaultVer
